@@ -9,7 +9,7 @@
 From Coq Require Import Reals Qreals.
 From Flocq Require Import Core.Zaux Core.Raux Core.Defs Core.Generic_fmt Core.FLT Core.Round_NE.
 From Coq Require Import List ZArith QArith Qabs String.
-From MechV Require Import Base.Sexp Base.Obs Model.Literal Proofs.LiteralP Proofs.LiteralRoundP Proofs.LiteralFlocqP.
+From MechV Require Import Base.Sexp Base.Obs Model.Literal Proofs.LiteralP Proofs.LiteralRoundP Proofs.LiteralFlocqP Proofs.LiteralFlocqInfP.
 Import ListNotations.
 Local Open Scope Z_scope.
 
@@ -367,3 +367,31 @@ Example C13_example_flocq :
   decode_bits f64 4591870180066957722 = Some (FFin false 7205759403792794 1018).
 Proof. exact flocq_example. Qed.
 Print Assumptions C13_example_flocq.
+
+(* 18. The overflow side of the link.  Flocq's [round] has no upper exponent bound; IEEE 754 defines overflow of
+       round-to-nearest as "the result rounded with unbounded exponent range has magnitude >= 2^emax".  The checker
+       agrees with that definition: whenever it accepts a finite float, Flocq's rounding equals its value and stays
+       below 2^emax; whenever it accepts an infinity, Flocq's rounding has magnitude >= 2^emax (and the sign is q's).
+       2^emax = bpow (femax + fprec - fscale); binary64: 2^1024. *)
+Theorem C13_is_nearest_overflow_flocq : forall (f : fmt) (v : fval) (q : Q),
+  fmt_ok f -> 2 <= fprec f -> is_nearest f v q = true ->
+  let r := round radix2 (FLT_exp (- fscale f) (fprec f)) ZnearestE (Q2R q) in
+  let two_emax := bpow radix2 (femax f + fprec f - fscale f) in
+  match v with
+  | FFin s M e => Q2R (fin_Q f s M e) = r /\ (Rabs r < two_emax)%R
+  | FInf s => (two_emax <= Rabs r)%R /\ s = (Qnum q <? 0)
+  | FNan => False
+  end.
+Proof. exact is_nearest_overflow_flocq. Qed.
+Print Assumptions C13_is_nearest_overflow_flocq.
+
+Theorem C13_is_nearest_overflow_flocq64 : forall (v : fval) (q : Q),
+  is_nearest f64 v q = true ->
+  let r := round radix2 (FLT_exp (3 - 1024 - 53) 53) ZnearestE (Q2R q) in
+  match v with
+  | FFin s M e => Q2R (fin_Q f64 s M e) = r /\ (Rabs r < bpow radix2 1024)%R
+  | FInf s => (bpow radix2 1024 <= Rabs r)%R /\ s = (Qnum q <? 0)
+  | FNan => False
+  end.
+Proof. exact is_nearest_overflow_flocq64. Qed.
+Print Assumptions C13_is_nearest_overflow_flocq64.
